@@ -468,7 +468,7 @@ Lemma lbtc_spend_shape kind p csv want txid outs preimage ascript feeopt claim_w
   0 <= sp_amount p < two63 ->
   lbtc_validate p csv want outs = true ->
   (kind = 0%N -> parse_preimage preimage = Some pre) ->
-  0 < lbtc_fee_of feeopt <= sp_amount p ->
+  0 < lbtc_fee_of feeopt < sp_amount p ->
   exists vi redeem,
     lbtc_validated_index p csv want outs = Some vi /\
     (exists o, nth_z outs vi = Some o /\ lo_script o = want /\ lbtc_validate_output o (sp_amount p) = Some (sp_amount p)) /\
@@ -491,6 +491,7 @@ Proof.
     rewrite Hfv, Hvo. cbn [snd fst negb].
     rewrite u64_small by (unfold two64, two63 in *; lia).
     destruct (Z.leb_spec two63 (sp_amount p - lbtc_fee_of feeopt)); [unfold two63 in *; lia|].
+    destruct (Z.eqb_spec (sp_amount p - lbtc_fee_of feeopt) 0); [lia|]. cbn [andb].
     rewrite u32_small by exact Hsq. reflexivity. }
   assert (Hsq : forall k, 0 <= seq_of_kind k csv < two32)
     by (intros k; destruct Hcsv as [ -> | -> ]; destruct k as [|[?|?|]]; cbn; unfold two32; lia).
@@ -514,7 +515,7 @@ Theorem lbtc_spend_correct :
   lbtc_validate p csv want outs = true ->
   signers_right kind claim_who taker_who ->
   (kind = 0%N -> parse_preimage preimage = Some pre /\ length pre = 32%nat /\ sha256 pre = pushed h) ->
-  0 < lbtc_fee_of feeopt <= sp_amount p ->
+  0 < lbtc_fee_of feeopt < sp_amount p ->
   sig_sizes_ok sigbytes ->
   exists vi redeem ops t calls,
     lbtc_spend kind p csv want txid outs preimage (mk_lw (Some (ascript, true)) feeopt false claim_who taker_who)
